@@ -90,6 +90,7 @@ class Engine:
         # vanishing operand (division, recip, ln, roots, negative powers) are recorded in self.singular
         self.mode = "euler"
         self.state_fields = {"volume": ONE, "moles": ONE}
+        self.param_fields = {}   # (mode "length"): field name of a *Parameters / *Properties struct -> degree
         self.singular = []      # (fn path, span, operation, order of the operand)
 
     # -------------------------------------------------------- per body
@@ -144,6 +145,8 @@ class Engine:
                     return T
                 if isinstance(cur, tuple):
                     return cur[p["f"]] if p["f"] < len(cur) else T
+                if self.param_fields and p.get("n") in self.param_fields and cur == I:
+                    return self.param_fields[p["n"]]
                 return cur
             return cur      # index / downcast keep the element degree
 
